@@ -6,6 +6,6 @@ CONSTANTS
   AtomKinds = {"ref", "area", "sheet", "func", "str", "num", "name"}
   Masters = {0, 1, 2}
   Shapes = {"col2", "col3", "row2", "row3", "block"}
-  SiPairs = {0, 1, 2}
+  SiPairs = {0, 1, 2, 3, 4}
 INVARIANTS Refines Dump
 CHECK_DEADLOCK FALSE
